@@ -213,6 +213,12 @@ def to_iter(e,run,v):
     if isinstance(d,(Str,StringO)) :
         return Iter([Ref(Cell(Int(8,False,x))) for x in d.b] if byref else [Int(8,False,x) for x in d.b])
     if isinstance(d,Opaque) and d.kind.startswith('const:'): return Iter([])
+    if isinstance(d,Agg) and d.ty in ('Range','RangeInclusive') and len(d.f)>=2 and isinstance(deref(d.f[0]),Int) and isinstance(deref(d.f[1]),Int):
+        lo,hi=deref(d.f[0]),deref(d.f[1])
+        if not (lo.conc() and hi.conc()): raise Unsupported('iteration over a symbolic range')
+        top=hi.v+(1 if d.ty=='RangeInclusive' else 0)
+        if top-lo.v>100000: raise Unsupported('range too long')
+        return Iter([Int(lo.w,lo.s,i) for i in range(lo.v,top)])
     raise Unsupported('into_iter of '+repr(d)[:80])
 
 def m_into_iter(e,run,a,f):
@@ -2257,3 +2263,33 @@ def register_misc16(E):
 _old_register_all25=register_all
 def register_all(E):
     _old_register_all25(E); register_misc16(E)
+
+# ---- char::from(u8), char::to_digit (a symbolic ASCII character is carried as a one-byte Str, see the integer cast in the engine)
+def m_char_from_u8(e,run,a,f):
+    x=deref(a[0])
+    if x.conc(): return Char(x.v)
+    if run.branch_bool(Bool(z3.UGE(x.v,0x80)),'char.from.latin1'): raise Unsupported('char::from of a symbolic byte >= 0x80')
+    return Str([x.v],True)
+def m_char_to_digit(e,run,a,f):
+    c=deref(a[0]); radix=deref(a[1])
+    if not radix.conc() or radix.v not in (10,16): raise Unsupported('to_digit radix')
+    if isinstance(c,Char):
+        ch=chr(c.v)
+        try: v=int(ch,radix.v) if ch.isalnum() and ord(ch)<128 else None
+        except ValueError: v=None
+        return none() if v is None else some(Int(32,False,v))
+    b=c.b[0] if isinstance(c,(Str,StringO)) and len(c.b)==1 else None
+    if b is None: return none()
+    if isinstance(b,int): return m_char_to_digit(e,run,[Char(b),radix],f)
+    opts=[z3.And(z3.UGE(b,0x30),z3.ULE(b,0x39))]
+    if radix.v==16: opts+=[z3.And(z3.UGE(b,0x61),z3.ULE(b,0x66)),z3.And(z3.UGE(b,0x41),z3.ULE(b,0x46))]
+    opts.append(z3.Not(z3.Or(*opts)))
+    k=run.choose(opts,'to_digit')
+    if k==len(opts)-1: return none()
+    off=[0x30,0x57,0x37][k]
+    return some(Int(32,False,z3.ZeroExt(24,b-off)))
+def register_misc17(E):
+    E.model(r'^<char as From<u8>>::from$',m_char_from_u8); E.model(r'<impl char>::to_digit$|^char::to_digit$',m_char_to_digit)
+_old_register_all26=register_all
+def register_all(E):
+    _old_register_all26(E); register_misc17(E)
